@@ -73,4 +73,16 @@ CHECKS['C15'] = {
             'the fresh-thread result; 2-4 threads are held inside their loads simultaneously with distinct patch values.',
     'note': 'Patches addressing non-dict states are excluded (undefined by the property); three open findings matched by structural triggers.',
 }
+ENGINES.append({'name': 'INJECT', 'path': 'harness/site/verif_inject.py', 'serves_properties': ['C01', 'C03', 'C06', 'C16', 'C20'],
+                'kind_free_text': 'sitecustomize line tracer injected into every child through PYTHONPATH: lands the real terminate()/a signal/a pause at the '
+                                  'n-th traced line of the work thread; harness-side rendezvous files, per-scenario census, AST region classification'})
+CHECKS['C01'] = {
+    'engine': 'INJECT', 'level': 'fault_enumeration', 'design_ref': 'DESIGN.md 3.1, 4 (C01)',
+    'technique': 'fault injection at generated/enumerated line-level landing points (Hypothesis-chosen index into a per-scenario census) with a scenario-derived outcome oracle',
+    'text': 'Real workers of all six classes are run with a generated ending: own return/exception (incl. BaseException and untransferable exceptions), graceful '
+            'terminate landing at the n-th traced line of the child run loop, SIGKILL/SIGTERM at the n-th line, external SIGKILL while blocked sending a 0.3-4 MB '
+            'result. After death a generated script of repeated reads must show one of the two legal shapes with an error allowed by the scenario, and never '
+            'change, raise or block. Every landing index is enumerated for thread/process one-shot workers in the quick tier.',
+    'note': 'Line granularity (not opcode); landings inside stdlib frames are represented by the calling pyworkers line; one open finding (process except-handler window).',
+}
 NOT_APPLICABLE = {}
